@@ -40,9 +40,5 @@ Definition create_frequency_range (low high step : Q) : res (list Q * Q) :=
   create_range_dim low high (Some step) None.
 
 (* comparison helpers for the correspondence *)
-Definition qclose (tol a b : Q) : bool :=
-  qleb (qabs (a - b)) (tol * pymax 1 (pymax (qabs a) (qabs b))).
-Definition qlist_close (tol : Q) (a b : list Q) : bool :=
-  Nat.eqb (length a) (length b) && forallb (fun p => qclose tol (fst p) (snd p)) (combine a b).
 Definition range_res_eqb (tol : Q) (x y : res (list Q * Q)) : bool :=
   res_eqb (fun a b => qlist_close tol (fst a) (fst b) && qclose tol (snd a) (snd b)) x y.
